@@ -25,7 +25,10 @@ class ExecutionTimeout(KeyboardInterrupt):
     Task / Handle machinery re-raises it instead of storing it in a task)."""
 
 
+# cap per execution: CPU seconds of this process (a task that spins without suspending burns CPU; a process that
+# is merely starved on a loaded machine does not), plus a generous wall-clock backstop for code that blocks
 EXEC_CAP_S = float(os.environ.get("VMC_EXEC_CAP_S", "60"))
+EXEC_WALL_CAP_S = float(os.environ.get("VMC_EXEC_WALL_CAP_S", str(EXEC_CAP_S * 10)))
 
 
 def _alarm(signum, frame):  # noqa: ANN001
@@ -84,25 +87,29 @@ def _run_one(idx: int) -> ProgResult:
     extra_max: dict[str, Any] = {}
 
     signal.signal(signal.SIGALRM, _alarm)
+    signal.signal(signal.SIGPROF, _alarm)
 
     def run_fn(ex: Execution) -> Any:
-        signal.setitimer(signal.ITIMER_REAL, EXEC_CAP_S)
+        signal.setitimer(signal.ITIMER_REAL, EXEC_WALL_CAP_S)
+        signal.setitimer(signal.ITIMER_PROF, EXEC_CAP_S)
         try:
             obs, viols = p.execute(ex)
         except ExecutionTimeout:
             if p.nontermination is not None:
                 signal.setitimer(signal.ITIMER_REAL, 0)
+                signal.setitimer(signal.ITIMER_PROF, 0)
                 clause, witness = p.nontermination
                 if len(pr.violations) < 20:
-                    pr.violations.append((clause, witness, f"execution did not terminate within {EXEC_CAP_S}s wall clock "
+                    pr.violations.append((clause, witness, f"execution did not terminate within {EXEC_CAP_S}s of CPU time "
                                           f"(a task spins without suspending); choices so far {ex.taken}",
                                           {"program": p.name, "params": p.params, "choices": list(ex.taken), "labels": ex.labels[:60]}))
                 raise StopExploration()
             raise HarnessError(
-                f"execution exceeded {EXEC_CAP_S}s wall clock (non-terminating code under test?) "
+                f"execution exceeded {EXEC_CAP_S}s CPU / {EXEC_WALL_CAP_S}s wall clock (non-terminating code under test?) "
                 f"program={p.name} choices={ex.taken}")
         finally:
             signal.setitimer(signal.ITIMER_REAL, 0)
+            signal.setitimer(signal.ITIMER_PROF, 0)
         if isinstance(obs, dict) and "_metrics" in obs:
             for k, v in obs.pop("_metrics").items():
                 extra_max[k] = max(extra_max.get(k, 0), v)
